@@ -7,7 +7,9 @@
    itself is covered by the fixed-seed differential run implementation <-> specification model. *)
 From RU Require Import Base.Prelude Base.Utf8 Model.AsciiSet Gen.Tables Model.PercentEncoding
   Model.HostT Model.UrlRecord Model.Parser Model.KnownC01 Spec.Whatwg
-  Proofs.C01_Tables Proofs.C01_Override.
+  Proofs.C01_Tables Proofs.C01_Override
+  Model.Setters Proofs.C08_Input Proofs.C01_EqRun Proofs.C01_EqEnc Proofs.C01_EqApi Proofs.C01_EqOpaque Proofs.C01_EqRef Proofs.C01_EqPathSpec Proofs.C01_EqDots Proofs.C01_EqPath Proofs.C01_EqOverflow Proofs.C01_EqEmpty Proofs.C01_EqClasses
+  Model.WF Proofs.C02_Opaque.
 
 (* (a) the percent-encode sets applied by the parser are the Standard's, for every byte *)
 Theorem C01_sets : forall b, b < 256 ->
@@ -71,3 +73,254 @@ Example C01_known_classes :
   /\ known_c01 None [98;108;111;98;58;47;47;58;64;47] = 4                      (* blob://:@/ *)
   /\ known_c01 None [104;116;116;112;58;47;47;104;47;97;63;113;35;102] = 0.    (* http://h/a?q#f *)
 Proof. vm_compute. repeat split. Qed.
+
+(* ====================================================================================== *)
+(* Proved parts of the equivalence (lemma plan (c), (h) of DESIGN.md section 8)            *)
+(* ====================================================================================== *)
+
+(* (c) scheme start / scheme states: on every input the model's parse_scheme and the Standard's scan
+   of the cleaned text give the same lower-cased scheme and the same remaining text, or both fall to
+   "no scheme".  `ntnl` removes tab / LF / CR (the model's remaining input still carries them; its
+   iterator skips them). *)
+Theorem C01_eq_scheme_state : forall l,
+  match parse_scheme CUrlParser l, spec_scheme (ntnl l) with
+  | Some (s, r), Some (s', r') => s = s' /\ ntnl r = r'
+  | None, None => True
+  | _, _ => False
+  end.
+Proof. exact scheme_state_eq. Qed.
+Print Assumptions C01_eq_scheme_state.
+
+(* the cleaned text the Standard's state machine runs on is the model's trimmed input minus the code
+   points its iterator skips *)
+Theorem C01_eq_cleaning : forall raw, spec_clean raw = ntnl (input_new_trim_c0 raw).
+Proof. exact spec_clean_is_ntnl_trim. Qed.
+Print Assumptions C01_eq_cleaning.
+
+(* the model's encoder (per UTF-8 byte, table-driven set) is the Standard's (per code point,
+   predicate), for each of the six sets *)
+Theorem C01_eq_encoders : forall cs,
+  encode T_CONTROLS (utf8_encode cs) = utf8_percent_encode in_c0_control_set cs
+  /\ encode T_FRAGMENT (utf8_encode cs) = utf8_percent_encode in_fragment_set cs
+  /\ encode T_QUERY (utf8_encode cs) = utf8_percent_encode in_query_set cs
+  /\ encode T_SPECIAL_QUERY (utf8_encode cs) = utf8_percent_encode in_special_query_set cs
+  /\ encode T_PATH (utf8_encode cs) = utf8_percent_encode in_path_set cs
+  /\ encode T_USERINFO (utf8_encode cs) = utf8_percent_encode in_userinfo_set cs.
+Proof. exact encoders_agree. Qed.
+Print Assumptions C01_eq_encoders.
+
+(* (h) first full class: no base, non-special scheme, text after "scheme:" not starting with '/'
+   (opaque path + optional query + optional fragment).  Every scalar-value input of the class - tab /
+   LF / CR anywhere, leading / trailing C0-or-space - : the Standard succeeds, and the model succeeds
+   with the same ten API strings unless it reports ParseError::Overflow (serialization beyond u32,
+   which the Standard does not know).  No host function is involved. *)
+Theorem C01_eq_opaque : forall dbg hp hpo hd ovr shp shs input,
+  usv_list input -> in_class_opaque input = true ->
+  agree_ok dbg shs (parse_url dbg hp hpo hd ovr None input) (spec_basic_url_parse shp input None).
+Proof. exact class_opaque. Qed.
+Check C01_eq_opaque : forall dbg hp hpo hd ovr shp shs input,
+  usv_list input -> in_class_opaque input = true ->
+  exists su, spec_basic_url_parse shp input None = BDone su
+    /\ (parse_url dbg hp hpo hd ovr None input = PErr Overflow
+        \/ exists u, parse_url dbg hp hpo hd ovr None input = POk u
+                     /\ api_of_model dbg u = Some (spec_api_list shs su)).
+Print Assumptions C01_eq_opaque.
+
+(* toy host functions for the non-vacuity examples (the classes below never call them) *)
+Definition toy_hp (s : list N) : result host := Ok (HDomain s).
+Definition toy_hd (h : host) : list N := match h with HDomain d => d | _ => [] end.
+Definition toy_shp (o : bool) (s : list N) : option spec_host := Some (if o then SOpaque s else SDomain s).
+Definition toy_shs (h : spec_host) : list N := match h with SDomain d => d | SOpaque d => d | _ => [] end.
+
+(* " Mail<TAB>to:x <e-acute>?q'#f<LF>` " is in the class; both sides give "mailto:x %C3%A9?q'#f%60" *)
+Example C01_eq_opaque_nonvacuous :
+  let input := [32; 77; 97; 105; 108; 9; 116; 111; 58; 120; 32; 233; 63; 113; 39; 35; 102; 10; 96; 32] in
+  in_class_opaque input = true
+  /\ match parse_url true toy_hp toy_hp toy_hd None None input, spec_basic_url_parse toy_shp input None with
+     | POk u, BDone su =>
+         api_of_model true u = Some (spec_api_list toy_shs su)
+         /\ q_href u = [109; 97; 105; 108; 116; 111; 58; 120; 32; 37; 67; 51; 37; 65; 57; 63; 113; 39; 35; 102; 37; 54; 48]
+     | _, _ => False
+     end.
+Proof. vm_compute. repeat split. Qed.
+
+(* ---------- references against a base ---------- *)
+(* `related dbg shs b sb` (Proofs/C01_EqRef.v): b satisfies the structural invariant wf_b, b and sb have
+   the same ten API strings, the same text in front of the fragment / the query, the same scheme, agree
+   on "cannot be a base" / "has an opaque path", and sb has no host/credentials/port where the
+   Standard's states assume so.  Parse results of the opaque class are related (C01_eq_opaque_related),
+   and the results of the two classes below are related again, so the theorems chain. *)
+Theorem C01_eq_opaque_related : forall dbg hp hpo hd ovr shp shs input,
+  usv_list input -> in_class_opaque input = true ->
+  agree_rel dbg shs (parse_url dbg hp hpo hd ovr None input) (spec_basic_url_parse shp input None).
+Proof. exact class_opaque_related. Qed.
+Print Assumptions C01_eq_opaque_related.
+
+(* "#fragment" (cleaned reference starts with '#') against ANY related base, also one that cannot be
+   a base *)
+Theorem C01_eq_fragment_only : forall dbg hp hpo hd shp shs input b sb,
+  usv_list input -> related dbg shs b sb -> in_class_fragment_only input = true ->
+  agree_rel dbg shs (parse_url dbg hp hpo hd None (Some b) input) (spec_basic_url_parse shp input (Some sb)).
+Proof. exact class_fragment_only. Qed.
+Check C01_eq_fragment_only : forall dbg hp hpo hd shp shs input b sb,
+  usv_list input -> related dbg shs b sb -> starts_with_cp 35 (spec_clean input) = true ->
+  exists su, spec_basic_url_parse shp input (Some sb) = BDone su
+    /\ (parse_url dbg hp hpo hd None (Some b) input = PErr Overflow
+        \/ exists u, parse_url dbg hp hpo hd None (Some b) input = POk u /\ related dbg shs u su).
+Print Assumptions C01_eq_fragment_only.
+
+(* "?query[#fragment]" against a related base without opaque path (special, file or not) *)
+Theorem C01_eq_query_only : forall dbg hp hpo hd shp shs input b sb,
+  usv_list input -> related dbg shs b sb -> in_class_query_only sb input = true ->
+  agree_rel dbg shs (parse_url dbg hp hpo hd None (Some b) input) (spec_basic_url_parse shp input (Some sb)).
+Proof. exact class_query_only. Qed.
+Print Assumptions C01_eq_query_only.
+
+(* no scheme, not "#...", base with an opaque path: the Standard returns failure, the model
+   Err(RelativeUrlWithCannotBeABaseBase) *)
+Theorem C01_eq_opaque_base_fail : forall dbg hp hpo hd shp shs input b sb,
+  related dbg shs b sb -> in_class_opaque_base_fail sb input = true ->
+  (exists u, spec_basic_url_parse shp input (Some sb) = BFailure u)
+  /\ parse_url dbg hp hpo hd None (Some b) input = PErr RelativeUrlWithCannotBeABaseBase.
+Proof. exact class_opaque_base_fail. Qed.
+Print Assumptions C01_eq_opaque_base_fail.
+
+(* the classes assembled: C01_statement restricted to in_proved_class, with `related` bases and the
+   named Overflow disjunct (see `agree`) *)
+Theorem C01_partial : forall dbg hp hpo hd shp shs input base sbase,
+  usv_list input -> base_rel dbg shs base sbase -> in_proved_class sbase input = true ->
+  agree dbg shs (parse_url dbg hp hpo hd None base input) (spec_basic_url_parse shp input sbase).
+Proof. exact partial_equivalence. Qed.
+Print Assumptions C01_partial.
+
+(* non-vacuity: the base "mailto:x" (a parse result of the opaque class) and the base "a:/p?x#y" are
+   related to the Standard's records; "#f", "?q#g" and "z" against them are in the classes and both
+   sides are evaluated *)
+Definition ex_b1 : url := opaque_url [109; 97; 105; 108; 116; 111] [120] None None.
+Definition ex_sb1 : spec_url := spec_opaque_url [109; 97; 105; 108; 116; 111] [120] None None.
+Definition ex_b2 : url := mkUrl [97; 58; 47; 112; 63; 120; 35; 121] 1 2 2 2 HI_None None 2 (Some 4) (Some 6).
+Definition ex_sb2 : spec_url := mkSUrl [97] [] [] None None (SPList [[112]]) (Some [120]) (Some [121]).
+
+Example C01_related_nonvacuous : related true toy_shs ex_b1 ex_sb1 /\ related true toy_shs ex_b2 ex_sb2.
+Proof.
+  split; constructor; try (vm_compute; reflexivity);
+    (split; intros H; try discriminate H; repeat split; reflexivity).
+Qed.
+
+Example C01_eq_refs_nonvacuous :
+  in_class_fragment_only [32; 35; 9; 102; 32] = true
+  /\ in_class_query_only ex_sb2 [63; 113; 10; 35; 103] = true
+  /\ in_class_opaque_base_fail ex_sb1 [122] = true
+  /\ match parse_url true toy_hp toy_hp toy_hd None (Some ex_b1) [32; 35; 9; 102; 32],
+           spec_basic_url_parse toy_shp [32; 35; 9; 102; 32] (Some ex_sb1) with
+     | POk u, BDone su => api_of_model true u = Some (spec_api_list toy_shs su)
+                          /\ q_href u = [109; 97; 105; 108; 116; 111; 58; 120; 35; 102]
+     | _, _ => False
+     end
+  /\ match parse_url true toy_hp toy_hp toy_hd None (Some ex_b2) [63; 113; 10; 35; 103],
+           spec_basic_url_parse toy_shp [63; 113; 10; 35; 103] (Some ex_sb2) with
+     | POk u, BDone su => api_of_model true u = Some (spec_api_list toy_shs su)
+                          /\ q_href u = [97; 58; 47; 112; 63; 113; 35; 103]
+     | _, _ => False
+     end
+  /\ match parse_url true toy_hp toy_hp toy_hd None (Some ex_b1) [122],
+           spec_basic_url_parse toy_shp [122] (Some ex_sb1) with
+     | PErr _, BFailure _ => True
+     | _, _ => False
+     end.
+Proof. vm_compute. repeat split. Qed.
+
+(* ---------- (g) path state: authority-less hierarchical URLs ---------- *)
+(* the dot-segment tests agree on every byte string *)
+Theorem C01_eq_dot_segments : forall s,
+  is_single_dot s = is_single_dot_segment s /\ is_double_dot s = is_double_dot_segment s.
+Proof. exact dot_segments_agree. Qed.
+Print Assumptions C01_eq_dot_segments.
+
+(* no base, non-special scheme, "scheme:/" not followed by a second '/': path state with dot-segment
+   removal (truncation of the serialization on the model side, popping a segment list on the
+   Standard's), "/." marker, query, fragment.  Every scalar-value input of the class, tab / LF / CR
+   anywhere.  Excluded, and only that (finding F-C01-9): a ".." that would pop a drive-letter-shaped
+   segment - `spath_ok` inside in_class_pathonly tests it on the Standard's own (segment list, buffer).
+   The result is a related base again. *)
+Theorem C01_eq_pathonly : forall dbg hp hpo hd ovr shp shs input,
+  usv_list input -> in_class_pathonly input = true ->
+  agree_rel dbg shs (parse_url dbg hp hpo hd ovr None input) (spec_basic_url_parse shp input None).
+Proof. exact class_pathonly. Qed.
+Check C01_eq_pathonly : forall dbg hp hpo hd ovr shp shs input,
+  usv_list input -> in_class_pathonly input = true ->
+  exists su, spec_basic_url_parse shp input None = BDone su
+    /\ (parse_url dbg hp hpo hd ovr None input = PErr Overflow
+        \/ exists u, parse_url dbg hp hpo hd ovr None input = POk u /\ related dbg shs u su).
+Print Assumptions C01_eq_pathonly.
+
+(* " A:/x/../y/./%2E%2e/z w/..//?q#f " -> a:/.//?q#f ;  "b:/p/%2e/<TAB>q/../r <e-acute>" -> b:/p/r%20%C3%A9 ;
+   "n:/C|/.." is NOT in the class and the two sides do differ on it (n:/C|/ vs n:/) *)
+Example C01_eq_pathonly_nonvacuous :
+  let i1 := [32; 65; 58; 47; 120; 47; 46; 46; 47; 121; 47; 46; 47; 37; 50; 69; 37; 50; 101; 47; 122; 32; 119;
+             47; 46; 46; 47; 47; 63; 113; 35; 102; 32] in
+  let i3 := [98; 58; 47; 112; 47; 37; 50; 101; 47; 9; 113; 47; 46; 46; 47; 114; 32; 233] in
+  let i2 := [110; 58; 47; 67; 124; 47; 46; 46] in
+  in_class_pathonly i1 = true /\ in_class_pathonly i3 = true /\ in_class_pathonly i2 = false
+  /\ match parse_url true toy_hp toy_hp toy_hd None None i1, spec_basic_url_parse toy_shp i1 None with
+     | POk u, BDone su => api_of_model true u = Some (spec_api_list toy_shs su)
+                          /\ q_href u = [97; 58; 47; 46; 47; 47; 63; 113; 35; 102]
+     | _, _ => False
+     end
+  /\ match parse_url true toy_hp toy_hp toy_hd None None i3, spec_basic_url_parse toy_shp i3 None with
+     | POk u, BDone su => api_of_model true u = Some (spec_api_list toy_shs su)
+                          /\ q_href u = [98; 58; 47; 112; 47; 114; 37; 50; 48; 37; 67; 51; 37; 65; 57]
+     | _, _ => False
+     end
+  /\ match parse_url true toy_hp toy_hp toy_hd None None i2, spec_basic_url_parse toy_shp i2 None with
+     | POk u, BDone su => q_href u = [110; 58; 47; 67; 124; 47] /\ get_href toy_shs su = [110; 58; 47]
+     | _, _ => False
+     end.
+Proof. vm_compute. repeat split. Qed.
+
+(* the empty reference (nothing left after cleaning) against a related base that can be a base: the
+   base without its fragment on both sides, never a failure *)
+Theorem C01_eq_empty_ref : forall dbg hp hpo hd shp shs input b sb,
+  related dbg shs b sb -> in_class_empty_ref sb input = true ->
+  agree_rel dbg shs (parse_url dbg hp hpo hd None (Some b) input) (spec_basic_url_parse shp input (Some sb)).
+Proof. exact class_empty_ref. Qed.
+Print Assumptions C01_eq_empty_ref.
+
+Example C01_eq_empty_ref_nonvacuous :
+  in_class_empty_ref ex_sb2 [32; 9; 32] = true
+  /\ match parse_url true toy_hp toy_hp toy_hd None (Some ex_b2) [32; 9; 32],
+           spec_basic_url_parse toy_shp [32; 9; 32] (Some ex_sb2) with
+     | POk u, BDone su => api_of_model true u = Some (spec_api_list toy_shs su)
+                          /\ q_href u = [97; 58; 47; 112; 63; 120]
+     | _, _ => False
+     end.
+Proof. vm_compute. repeat split. Qed.
+
+(* ---------- the Overflow clause, made precise; the final partial statement ---------- *)
+(* in every proved class the model answers ParseError::Overflow only if the href the Standard
+   prescribes is itself longer than u32::MAX (4294967295) bytes *)
+Theorem C01_overflow_only_beyond_u32 : forall dbg hp hpo hd shp shs input base sbase su,
+  usv_list input -> base_rel dbg shs base sbase -> in_proved_class sbase input = true ->
+  parse_url dbg hp hpo hd None base input = PErr Overflow ->
+  spec_basic_url_parse shp input sbase = BDone su ->
+  U32_MAX_P < nlen (get_href shs su).
+Proof. exact class_overflow_bound. Qed.
+Print Assumptions C01_overflow_only_beyond_u32.
+
+(* C01_statement restricted to the proved classes: the Standard succeeds -> the model succeeds with
+   the same ten API strings, or answers Overflow and the Standard's href exceeds u32::MAX bytes;
+   the Standard fails -> the model returns Err *)
+Theorem C01_partial_strict : forall dbg hp hpo hd shp shs input base sbase,
+  usv_list input -> base_rel dbg shs base sbase -> in_proved_class sbase input = true ->
+  agree_strict dbg shs (parse_url dbg hp hpo hd None base input) (spec_basic_url_parse shp input sbase).
+Proof. exact partial_equivalence_strict. Qed.
+Check C01_partial_strict : forall dbg hp hpo hd shp shs input base sbase,
+  usv_list input -> base_rel dbg shs base sbase -> in_proved_class sbase input = true ->
+  match spec_basic_url_parse shp input sbase with
+  | BDone su => (parse_url dbg hp hpo hd None base input = PErr Overflow /\ U32_MAX_P < nlen (get_href shs su))
+                \/ exists u, parse_url dbg hp hpo hd None base input = POk u
+                             /\ api_of_model dbg u = Some (spec_api_list shs su)
+  | BFailure _ => exists e, parse_url dbg hp hpo hd None base input = PErr e
+  | BOutOfFuel => False
+  end.
+Print Assumptions C01_partial_strict.
